@@ -1,6 +1,7 @@
 package symgo
 
 import (
+	"strings"
 	"fmt"
 	"hash/crc32"
 	"math/big"
@@ -250,6 +251,7 @@ func init() {
 }
 
 var crcTab = crc32.MakeTable(crc32.Castagnoli)
+var crcMemo = map[string]value{}
 
 func init() {
 	externals["hash/crc32.MakeTable"] = func(fr *frame, a []value) value { return (*value)(nil) }
@@ -267,13 +269,25 @@ func init() {
 		if allc {
 			return crc32.Checksum(conc, crcTab)
 		}
-		// uninterpreted step chain (hash-consed, so equal inputs give equal terms)
-		acc := ConstU(0xffffffff, 32)
+		// uninterpreted but functional: one fresh 32-bit value per distinct input (keyed by the
+		// hash-consed terms of the bytes), so equal inputs give the equal checksum and no
+		// uninterpreted function reaches the solver
+		var key strings.Builder
 		for _, x := range data {
-			acc = mk("crcstep", BV(32), acc, termOf(x))
+			if c, ok := x.(uint8); ok {
+				fmt.Fprintf(&key, "c%d,", c)
+			} else {
+				fmt.Fprintf(&key, "t%d,", termOf(x).id)
+			}
 		}
-		eng.needCrc = true
-		return mkVal(types.Uint32, acc)
+		k := key.String()
+		if v, ok := crcMemo[k]; ok {
+			return v
+		}
+		v := eng.fresh("env_crc32", types.Uint32)
+		crcMemo[k] = v
+		journalFn(func() { delete(crcMemo, k) })
+		return v
 	}
 }
 
